@@ -15,7 +15,7 @@ RULE = (
     "(L2'=31: L1 key for L1' with the L2 key present/absent; L2'<31: L1 key for L1'-1, absent at L1'=0, plus the L2 key). quick: boundary "
     "sub-lattice {0,1,2,15,16,29,30,31}^4 x 4 hashes x 2 (root key, SD, L0) incl. L0=0 and 2^31-1; thorough: the full 32^2 x 32^2 lattice (SHA512) "
     "plus the quick set. Observation: GroupKeyEnvelope.get_kek(KeyIdentifier) in nonce mode and compute_l2_key. Covered pair: KEK must equal the reference chain from the root key; "
-    "non-covered pair: must raise within 80 KDF calls / 5 s CPU. Every (shape, request) pair is distinct by construction; non-trivial = the real derivation was entered."
+    "non-covered pair: must raise within 80 KDF calls / 5 s CPU. A second harness goes through the public API on the sub-lattice: a KeyCache primed by one unprotect via the reference DC (policies: exact position, (L1',31), latest of the L0) then offline unprotect of a reference-encrypted blob at (L1,L2): covered => plaintext, not covered => the library tries the network. Every (shape, request) pair is distinct by construction; non-trivial = the real derivation was entered."
 )
 ASSUME = ["ref/gkdi.Chain calibrated on the 16 Windows vectors (position (17,13))", "KBKDFHMAC.derive is the library's only KDF primitive (call counter)"]
 BOUND = {"quick": "8^4 boundary sub-lattice x shapes x 4 hashes x 2 key sets", "thorough": "full 32^4 lattice x shapes (SHA512) + quick set"}
@@ -32,6 +32,9 @@ def shards(tier: str, seed: int):
     if tier == "thorough":
         for l1e in range(32):
             out.append(["full", l1e])
+    for cover in ("exact", "l1end", "later"):
+        for part in range(4):
+            out.append(["api", cover, part])
     return out
 
 
@@ -112,7 +115,64 @@ def sweep(acc, rk, sd, l0, env_positions, req_positions) -> None:
     acc.outcome("uncovered-pairs", n - cov)
 
 
+PT = b"c02-api"
+API_SID = "S-1-5-21-7-8-9-1107"
+
+
+def api_shard(acc, seed: int, cover: str, part: int) -> None:
+    """through the public API: a cache primed by one unprotect via the reference DC (which answers with the envelope for
+    (L1',L2') under policy `cover`), then the DC is removed and a reference-encrypted blob at (L1,L2) is unprotected."""
+    import copy
+
+    import dpapi_ng
+
+    from env import refdc, secctx, transport
+    from ref import cms
+
+    seams.block_network()
+    d = seams.Drbg(("C02api", seed))
+    rk = seams.make_root(d, ["SHA256", "SHA512", "SHA1", "SHA384"][part])
+    l0 = 360
+    blobs = {}
+    for l1, l2 in [(a, b) for a in SUB for b in SUB]:
+        blobs[(l1, l2)] = cms.ref_encrypt(rk, API_SID, PT, (l0, l1, l2), cek=d.bytes(32), gcm_nonce_=d.bytes(12), key_nonce=d.bytes(32))
+    n = 0
+    for l1e, l2e in [(a, b) for a in SUB for b in SUB]:
+        dc = refdc.DC([rk], now=(361, 0, 0), cover=cover)
+        cache = dpapi_ng.KeyCache()
+        with transport.network(dc), secctx.scripted_client(lambda u, p, **kw: secctx.ScriptedContext([b"C1"], 16)):
+            got = dpapi_ng.ncrypt_unprotect_secret(blobs[(l1e, l2e)], server="dc", username="u", password="p", auth_protocol="ntlm", cache=cache)
+        if bytes(got) != PT:
+            acc.violate("api.prime", ["api", cover, part, l1e, l2e], {"got": repr(bytes(got))})
+            continue
+        have = dc.returned[-1][2][1:]
+        for (l1, l2), blob in blobs.items():
+            c2 = copy.deepcopy(cache)
+            case = ["api", cover, part, l1e, l2e, l1, l2]
+            st, v, kdfs = budget.kdf_guarded(KDF_CAP, lambda: seams.outcome_of(lambda: dpapi_ng.ncrypt_unprotect_secret(blob, cache=c2)))
+            n += 1
+            if st == "budget":
+                acc.violate("api.no-termination", case, {"detail": repr(v)}, size=l1e + l2e + l1 + l2)
+                continue
+            kind, val = v
+            covered = have >= (l1, l2)
+            if covered:
+                if kind != "ok" or bytes(val) != PT:
+                    acc.violate("api.covered.failed", case, {"outcome": kind, "value": repr(val)[:120], "cached_position": have}, size=l1e + l2e + l1 + l2)
+                acc.outcome("api-covered")
+            else:
+                if kind != "net":
+                    acc.violate("api.uncovered.no-network-attempt", case, {"outcome": kind, "value": repr(val)[:120], "cached_position": have}, size=l1e + l2e + l1 + l2)
+                acc.outcome("api-uncovered")
+    acc.ev(n)
+    acc.nt_counted(n)
+    acc.sample({"api": "cache primed via reference DC", "cover_policy": cover, "hash": rk.hash_name})
+
+
 def run_shard(shard, tier, seed, acc) -> None:
+    if shard[0] == "api":
+        api_shard(acc, seed, shard[1], shard[2])
+        return
     if shard[0] == "sub":
         _, h, ks = shard
         rk, sd, l0 = keyset(seed, ks, h)
@@ -127,6 +187,14 @@ def run_shard(shard, tier, seed, acc) -> None:
 
 
 def replay(case, seed, acc) -> None:
+    if case[0] == "api":
+        api_shard(acc, seed, case[1], case[2])
+        for k in list(acc.violations):
+            acc.violations[k] = [e for e in acc.violations[k] if e["case"] == case]
+            if not acc.violations[k]:
+                del acc.violations[k]
+        acc.violation_count = sum(len(v) for v in acc.violations.values())
+        return
     import dpapi_ng._blob as Bm
     import dpapi_ng._gkdi as G
 
